@@ -56,7 +56,19 @@ func callNames(c *ssa.CallCommon) []string {
 	case *ssa.Field:
 		st := v.X.Type().Underlying().(*types.Struct)
 		add("$field." + st.Field(v.Field).Name())
-	case *ssa.Extract, *ssa.Call, *ssa.Phi:
+	case *ssa.Extract:
+		if call, ok := v.Tuple.(*ssa.Call); ok {
+			if f := call.Call.StaticCallee(); f != nil {
+				ns := funcNames(f)
+				n := ns[0]
+				if len(ns) > 1 {
+					n = ns[1]
+				}
+				add(fmt.Sprintf("$result.%s.%d", n, v.Index))
+			}
+		}
+		add("$dynamic")
+	case *ssa.Call, *ssa.Phi:
 		add("$dynamic")
 	}
 	if len(out) == 0 {
@@ -169,6 +181,20 @@ func (g *Gen) noteCall(c *ssa.CallCommon, in ssa.Instruction, res *Val, prefix s
 			s.ghost["$ok:"+name] = "true"
 		}
 		s.ghost["$count:"+name] = sx("+", g.ghostTerm(s, "$count:"+name), "1")
+		if res != nil {
+			rs := res.Tuple
+			if rs == nil && res.T != "" {
+				rs = []*Val{res}
+			}
+			for i, r := range rs {
+				if r.T == "" || r.Ty == nil {
+					continue
+				}
+				gn := fmt.Sprintf("$res:%s:%d", name, i)
+				g.ghostSorts[gn] = g.st.sortOf(r.Ty)
+				s.ghost[gn] = r.T
+			}
+		}
 	}
 }
 
@@ -264,6 +290,11 @@ func (g *Gen) execUserCall(c *ssa.CallCommon, in ssa.Instruction, recv *Val, arg
 	if c.IsInvoke() {
 		con = e.ifaceContract(c)
 		all = append([]*Val{recv}, args...)
+	} else if ftc := e.funcTypeContract(c); ftc != nil {
+		fv := g.val(c.Value)
+		g.oblige("nilcall", "", sx("distinct", fv.T, "0"), g.pos(in), "call of a nil function value")
+		con = ftc
+		all = append([]*Val{fv}, args...)
 	} else {
 		all = args
 		if callee != nil {
@@ -276,6 +307,9 @@ func (g *Gen) execUserCall(c *ssa.CallCommon, in ssa.Instruction, recv *Val, arg
 	}
 	if con != nil {
 		return g.applyContract(con, c, in, all, rt)
+	}
+	if callee == nil && !c.IsInvoke() {
+		g.oblige("nilcall", "", sx("distinct", g.val(c.Value).T, "0"), g.pos(in), "call of a nil function value")
 	}
 	// no contract: havoc what the callee may write
 	if callee != nil && e.effectFree(callee) {
@@ -351,23 +385,7 @@ func (g *Gen) applyContract(con *Contract, c *ssa.CallCommon, in ssa.Instruction
 		g.oblige("pre", short+":"+label, t, g.pos(in), "precondition of "+con.Key+": "+cl.Src)
 		g.assume(t)
 	}
-	s := g.cur
-	switch {
-	case con.Pure:
-	case con.HasMod:
-		for _, m := range con.Modifies {
-			g.havocLval(sc, m)
-		}
-	default:
-		mods := g.eng.callMods(c)
-		for _, name := range sortedKeys(mods) {
-			g.materialize(mods[name])
-			s.heap[name] = g.newHeapVersion(name)
-		}
-	}
-	if !con.Pure {
-		g.bumpBrk()
-	}
+	// results first: a modifies clause may name them (e.g. a freshly returned object)
 	res := g.havocVal(rt, "r."+sanitize(short))
 	var results []*Val
 	if res.Tuple != nil {
@@ -381,6 +399,24 @@ func (g *Gen) applyContract(con *Contract, c *ssa.CallCommon, in ssa.Instruction
 		if i < len(results) && n != "_" {
 			env[n] = results[i]
 		}
+	}
+	s := g.cur
+	switch {
+	case con.Pure:
+	case con.HasMod:
+		msc := g.specCtx(env, g.cur, g.cur)
+		for _, m := range con.Modifies {
+			g.havocLval(msc, m)
+		}
+	default:
+		mods := g.eng.callMods(c)
+		for _, name := range sortedKeys(mods) {
+			g.materialize(mods[name])
+			s.heap[name] = g.newHeapVersion(name)
+		}
+	}
+	if !con.Pure {
+		g.bumpBrk()
 	}
 	post := g.specCtx(env, g.cur, pre)
 	post.brkBefore = g.ghostTerm(pre, "$brk")
@@ -464,9 +500,19 @@ func (g *Gen) frameTargets() map[string][]frameTarget {
 	if g.allowedTargets != nil {
 		return g.allowedTargets
 	}
+	g.allowedTargets = g.frameTargetsEnv(g.env, true)
+	return g.allowedTargets
+}
+
+// frameTargetsEnv: with skipResults, clauses that mention a result name are
+// left out (inside loops the results do not exist yet).
+func (g *Gen) frameTargetsEnv(env map[string]*Val, skipResults bool) map[string][]frameTarget {
 	allowed := map[string][]frameTarget{}
-	sc := g.specCtx(g.env, g.init, g.init)
+	sc := g.specCtx(env, g.init, g.init)
 	for _, m := range g.con.Modifies {
+		if skipResults && mentionsAny(m, g.con.Results) {
+			continue
+		}
 		ts, err := sc.lvalTargets(m)
 		if err != nil {
 			g.fail("modifies %s: %v", m, err)
@@ -475,12 +521,33 @@ func (g *Gen) frameTargets() map[string][]frameTarget {
 			allowed[t.Comp] = append(allowed[t.Comp], t)
 		}
 	}
-	g.allowedTargets = allowed
 	return allowed
 }
 
-func (g *Gen) checkFrame(pos token.Pos, site string) {
-	allowed := g.frameTargets()
+func mentionsAny(e *SExpr, names []string) bool {
+	if e == nil {
+		return false
+	}
+	if e.Kind == SIdent {
+		for _, n := range names {
+			if n == e.Name {
+				return true
+			}
+		}
+	}
+	if mentionsAny(e.X, names) || mentionsAny(e.Y, names) || mentionsAny(e.Lo, names) || mentionsAny(e.Hi, names) {
+		return true
+	}
+	for _, a := range e.Args {
+		if mentionsAny(a, names) {
+			return true
+		}
+	}
+	return false
+}
+
+func (g *Gen) checkFrame(env map[string]*Val, pos token.Pos, site string) {
+	allowed := g.frameTargetsEnv(env, false)
 	for _, comp := range sortedKeys(g.cur.heap) {
 		final := g.cur.heap[comp]
 		initial := g.compConst(comp, "0")
